@@ -406,7 +406,8 @@ class P(Prop):
         for k in range(n):
             out.append(self.random_case(rng, streams[k % len(streams)]))
         # the sentinel stream (appended: the cases above are unchanged for a given seed): proj_polyligne on inputs whose
-        # distances are all inf / NaN, where `dist < distmin` never holds against the sentinel 1e400 (UnboundLocalError)
+        # distances are all inf / NaN, where `dist < distmin` never holds against the sentinel 1e400 (the answer then comes from
+        # the lines after the loop: the first vertex, distance inf / NaN, or OverflowError at `** 2` on Python floats)
         for k in range(n // 40):
             out.append(self.nonfinite_case(rng))
         return out
